@@ -161,6 +161,22 @@ newline"`)
 				{Kind: "flavor", Name: "fx-mid", Info: "inherits:2", Forms: []string{mid}, Probes: chainProbes("fx-mid")},
 				{Kind: "flavor", Name: "fx-leaf", Info: "inherits:3", Forms: []string{leaf, "(defvar *fx-leaf-inst* (make-instance 'fx-leaf :extra 3))"},
 					Probes: append(leafProbes, "(list (slot-value *fx-leaf-inst* 'size) (slot-value *fx-leaf-inst* 'extra))")},
+			}},
+			// instances whose variables were set to nil (and other empty values)
+			// away from non-nil own and inherited defaults
+			Case{Mode: "session", Kind: "session", Margins: []int{80}, Items: []Item{
+				{Kind: "flavor", Name: "fx-base", Forms: []string{base}, Probes: chainProbes("fx-base")},
+				{Kind: "flavor", Name: "fx-mid", Info: "inherits:2", Forms: []string{mid,
+					"(defvar *fx-nil-inst* (make-instance 'fx-mid :tag nil))",
+					"(send *fx-nil-inst* :set-size nil)",
+					"(setf (slot-value *fx-nil-inst* 'weight) nil)",
+					"(defvar *fx-empty-inst* (make-instance 'fx-mid))",
+					"(send *fx-empty-inst* :set-size 0)", "(send *fx-empty-inst* :set-tag \"\")", "(send *fx-empty-inst* :set-weight 5)",
+					"(defvar *fx-t-inst* (make-instance 'fx-base :size t))"},
+					Probes: []string{
+						"(list (slot-value *fx-nil-inst* 'size) (slot-value *fx-nil-inst* 'tag) (slot-value *fx-nil-inst* 'weight))",
+						"(list (slot-value *fx-empty-inst* 'size) (slot-value *fx-empty-inst* 'tag) (slot-value *fx-empty-inst* 'weight))",
+						"(list (slot-value *fx-t-inst* 'size) (slot-value *fx-t-inst* 'tag))"}},
 			}})
 		for _, feat := range sessionFeats {
 			// the first one holds nothing but the construct: the smallest witness
